@@ -27,3 +27,33 @@ CHECKS["C16"] = dict(
                  "single caller thread (thread schedules are C20's subject)",
                  "the reference scheduler in harness/C16_timers.cpp is the specification of 'due', 'earliest first' and 're-arm'"],
 )
+
+CHECKS["C20"] = dict(
+    engine="E1-thr",
+    level="exploration",
+    mode="thr",
+    opt="-O1",
+    harness=[("harness/C20_prog.cpp", ["+igris-san"]), "harness/C20_thr.cpp", "sim/thr/thrsim.cpp"],
+    igris=["igris/sync/syslock_mutex.cpp", "igris/osinter/wait.cpp", "igris/osinter/wait-linux.cpp", "igris/container/dlist.cpp"],
+    libs=["-rdynamic"],
+    runs=dict(quick=24000, thorough=1200000),
+    design_ref="DESIGN.md 4.1, 5 (C20), 11 A.3",
+    technique="deterministic thread-schedule simulation: real threads serialised by a seeded scheduler at intercepted "
+              "pthread/semaphore calls and instrumented memory accesses, spurious wake-up injection, vector-clock "
+              "happens-before race and object-lifetime detection, model wait-queue / FIFO oracles",
+    level_text="seeded exploration of thread schedules of short 2-4 thread programs over the real system lock, wait queue and "
+               "safe_queue code; every run is one exactly replayable interleaving; mutual exclusion, exact wake attribution, "
+               "lost/spurious wake-ups (deadlock detection), exactly-once/ordering and happens-before races (including use of a "
+               "destroyed condition variable) are checked in every run. Sampling of schedules, not enumeration, not proof",
+    level_note="trusted: the modelled pthread mutex/condvar/semaphore semantics in sim/thr (non-robust mutexes, no priorities), "
+               "the -fsanitize=thread instrumentation as the source of memory-access events; preemption inside uninstrumented "
+               "libstdc++/libc code is not explored",
+    rule="one run = one seeded program (2-4 threads, 1-8 API calls each, plus a drain thread for the wait queue) executed under one "
+         "seeded schedule (explicit choice list or PCT priorities, optional preemption every k-th instrumented memory access, "
+         "optional spurious condvar wake-ups). non-trivial = at least one context switch happened while >= 2 threads were inside "
+         "the API under test; distinct = distinct FNV hash of the synchronisation-event trace",
+    simtime_units="scheduling decisions",
+    probes=["wake_raced_with_park", "nested_depth3", "save_restore_window", "queue_contended", "priority_waiter"],
+    assumptions=["pthread primitives behave as modelled in sim/thr/thrsim.cpp", "pop() is only called when an item is available (std::queue precondition)",
+                 "bare-metal variants (semaphore.cpp, syslock_irqs.c) are not compiled on this platform and not simulated"],
+)
